@@ -980,9 +980,10 @@ impl Drop for Keeper {
     }
 }
 
-pub fn d15(residue: usize, extra_guards: usize) -> bool {
+pub fn d15(residue: usize, extra_guards: usize, e2e: usize) -> bool {
     reset(residue, 0);
-    let sh = Arc::new(Sh { roots: vec![], wroots: vec![] });
+    let sh = Arc::new(Sh { roots: vec![AtomicRc::null()], wroots: vec![] });
+    let s0 = sh.clone();
     let b0: Box<dyn FnOnce() + Send> = Box::new(move || {
         drop(Rc::new(Keeper { next: AtomicRc::null() }));
         for _ in 0..12 {
@@ -996,6 +997,53 @@ pub fn d15(residue: usize, extra_guards: usize) -> bool {
         }
         let kept = KEPT.with(|k| k.borrow_mut().take());
         let Some(kept) = kept else { return };
+        if e2e >= 1 {
+            // end to end: the kept guard is a critical section like any other - what is loaded under it outlives it
+            // (C02/C13) and the global epoch moves at most one step while it lives (C14), whatever the thread itself
+            // retires and collects in the meantime
+            let a0 = match verif::local_state(&kept) {
+                Some(st) if st.pinned => st.announced,
+                _ => verif::global_epoch(),
+            };
+            let (x, xid) = new_node(3);
+            l_rc(xid, 1);
+            s0.roots[0].store(x, SeqCst, &kept);
+            l_rc(xid, -1);
+            let snap = s0.roots[0].load(SeqCst, &kept);
+            l_snap(xid, 0, 1);
+            let old = s0.roots[0].swap(Rc::null(), SeqCst);
+            drop(old);
+            let mut reported = false;
+            for round in 0..8 {
+                churn(1);
+                mon::eval("guard-model");
+                let ge = verif::global_epoch();
+                if !reported && (ge < a0 || ge - a0 > 1) {
+                    reported = true;
+                    mon::observer_violation(
+                        "C14",
+                        "C14|epoch-advanced-twice-within-critical-section",
+                        format!("scenario d15: a guard created in a destructor during collection has been live since epoch {} but the global epoch is {} (round {})", a0, ge, round),
+                    );
+                }
+            }
+            if let Some(n) = snap.as_ref() {
+                n.check_live(Some(xid), "C02", "load");
+            }
+            l_snap(xid, 0, -1);
+            set(7, 1);
+        }
+        if e2e == 2 {
+            // exactly once across thread exit (C15): the guard is released like any other, the thread retires some more
+            // objects and exits; `finish` on the surviving thread must see every one of them destructed
+            drop(kept);
+            for _ in 0..5 {
+                let (n, _) = new_node(0);
+                drop(n);
+            }
+            set(9, 1);
+            return;
+        }
         mon::eval("guard-model");
         let st = verif::local_state(&kept).unwrap();
         mon::oplog(0, format!("a guard created in a destructor during collection is still held: pinned={} guard_count={}", st.pinned, st.guard_count));
@@ -1017,9 +1065,9 @@ pub fn d15(residue: usize, extra_guards: usize) -> bool {
         drop(g);
         set(9, 1);
     });
-    let _ = run("d15", J::obj().set("scenario", "d15").set("residue", residue).set("guards_around_the_round", extra_guards), vec![], vec![b0]);
+    let _ = run("d15", J::obj().set("scenario", "d15").set("residue", residue).set("guards_around_the_round", extra_guards).set("end_to_end", e2e), vec![], vec![b0]);
     finish(&sh);
-    get(9) == 1 && get(1) == 1
+    get(9) == 1 && get(1) == 1 && (e2e == 0 || get(7) == 1)
 }
 
 pub struct ScenOut {
@@ -1137,7 +1185,9 @@ pub fn run_all(which: &str, shard: u64, nshards: u64, thorough: bool) -> ScenOut
     if which == "d15" {
         for &r in &[0usize, 5, 11] {
             for eg in 0..2usize {
-                one("d15", vec![r, eg], &|| d15(r, eg), &mut out);
+                for e2e in 0..3usize {
+                    one("d15", vec![r, eg, e2e], &|| d15(r, eg, e2e), &mut out);
+                }
             }
         }
     }
